@@ -98,6 +98,7 @@ type Explorer struct {
 	Transcripts string
 	Seed      int
 	QuickMs   int
+	SolverMode string
 
 	mu        sync.Mutex
 	work      [][]Dec
@@ -431,11 +432,7 @@ func (ex *Exec) modelDraws(m Model) []DrawRec {
 	out := make([]DrawRec, len(ex.draws))
 	for i, d := range ex.draws {
 		out[i] = d
-		if d.T.Op == OVar {
-			out[i].V = m[d.T.Name]
-		} else {
-			out[i].V = d.T.Eval(m, map[*Term]uint64{})
-		}
+		out[i].V = d.T.Eval(m, map[*Term]uint64{})
 	}
 	return out
 }
@@ -722,7 +719,7 @@ func (E *Explorer) Explore() *ExploreResult {
 			if E.Transcripts != "" {
 				tp = fmt.Sprintf("%s.%d.smt2", E.Transcripts, id)
 			}
-			s, err := NewSolver(E.SolverBin, E.TimeoutMs, tp)
+			s, err := NewSolver(E.SolverBin, E.TimeoutMs, tp, E.SolverMode, E.QuickMs, E.Seed)
 			if err != nil {
 				E.mu.Lock()
 				E.inconcl = append(E.inconcl, "cannot start solver: "+err.Error())
@@ -731,10 +728,6 @@ func (E *Explorer) Explore() *ExploreResult {
 				E.cond.Broadcast()
 				return
 			}
-			s.seed = E.Seed
-			s.fbBin = "cvc5"
-			s.quickMs = E.QuickMs
-			s.fbMs = E.TimeoutMs
 			w := &Worker{E: E, ts: NewTermStore(), solver: s, id: id}
 			defer func() {
 				E.mu.Lock()
